@@ -18,6 +18,23 @@ class InjectedFault(Exception):
     pass
 
 
+def _nonfinite(meta):
+    """Keys whose value is a non-finite float (FITS has no card for them)."""
+    import math
+
+    out = []
+    for k, v in meta.items():
+        if isinstance(v, tuple) and v:
+            v = v[0]  # (value, comment)
+        try:
+            if isinstance(v, float) or type(v).__module__ == "numpy" and getattr(v, "dtype", None) is not None and v.dtype.kind == "f":
+                if not math.isfinite(float(v)):
+                    out.append(k)
+        except Exception:
+            pass
+    return out
+
+
 def build_config(spec):
     from nuspacesim.config import NssConfig, Simulation
 
@@ -30,6 +47,8 @@ def build_config(spec):
         c.simulation.spectrum = Simulation.PowerSpectrum(index=2.0, lower_bound=7.0, upper_bound=10.5)
     if spec.get("cloud") == "map":
         c.simulation.cloud_model = Simulation.PressureMapCloud(month=3)
+    elif spec.get("cloud") == "mono_default":
+        c.simulation.cloud_model = Simulation.MonoCloud()  # altitude -inf
     elif spec.get("cloud") == "mono":
         c.simulation.cloud_model = Simulation.MonoCloud(altitude=1.0)
     if "alt" in spec:
@@ -71,7 +90,7 @@ class WriteProbe:
                 raise InjectedFault(f"injected failure before write {nxt}")
             r = real(*a, **kw)
             probe.k = nxt
-            probe.log.append({"k": nxt, "colnames": list(inst.colnames), "meta_keys": list(inst.meta.keys()), "kwargs": {x: repr(y) for x, y in kw.items()}})
+            probe.log.append({"k": nxt, "colnames": list(inst.colnames), "meta_keys": list(inst.meta.keys()), "meta_nonfinite": _nonfinite(inst.meta), "kwargs": {x: repr(y) for x, y in kw.items()}})
             if probe.snapdir:
                 shutil.copyfile(probe.outfile, os.path.join(probe.snapdir, f"{nxt:03d}.fits"))
             if probe.plan.get("kind") == "die-after" and probe.plan.get("at") == nxt:
@@ -169,6 +188,7 @@ def main():
     try:
         res["final_colnames"] = list(_FINAL["sim"].colnames)
         res["final_meta_keys"] = list(_FINAL["sim"].meta.keys())
+        res["final_meta_nonfinite"] = _nonfinite(_FINAL["sim"].meta)
     except Exception:
         pass
     print("C17CHILD " + json.dumps(res))
